@@ -431,11 +431,17 @@ def check_matrix(rep, Em, ts, taumax, lag):
         rep.fail("EventSeries.__init__/raises", W(), repr(exc))
         return
     defined = False
+    gotE = np.asarray(obj.get_event_matrix())
+    if gotE.shape != Em.shape or not np.array_equal(gotE.astype(int), Em):
+        rep.fail("EventSeries.__init__/event-matrix-kept-as-given", W(), "stored event matrix has shape %r, given %r" % (gotE.shape, Em.shape))
+        return
     # ---- ES
     rep.case()
     D, exc = call(obj.event_series_analysis, method="ES", symmetrization="directed")
     if exc is not None:
         rep.fail("event_series_analysis/es-directed", W(), repr(exc))
+    elif np.shape(D) != (N, N):
+        rep.fail("event_series_analysis/es-directed", W(), "matrix of shape %r for %d event series" % (np.shape(D), N))
     else:
         D = np.array(D, dtype=float)
         bad = []
@@ -480,6 +486,9 @@ def check_matrix(rep, Em, ts, taumax, lag):
             D, exc = call(obj.event_series_analysis, method="ECA", symmetrization="directed", window_type=w)
             if exc is not None:
                 rep.fail("event_series_analysis/eca-directed-" + w, W(window=w), repr(exc))
+                continue
+            if np.shape(D) != (N, N):
+                rep.fail("event_series_analysis/eca-directed-" + w, W(window=w), "matrix of shape %r for %d event series" % (np.shape(D), N))
                 continue
             D = np.array(D, dtype=float)
             bad = []
